@@ -674,6 +674,48 @@ def pickInstantiator (E : ClassEnv) (l : List Instantiator) (cls : String) : Str
   | some i => i.tag
   | none => "default"
 
+/-! ### several class-typed options: the work-list walk of `ActionTypeHint.discard_init_args_on_class_path_change` -/
+
+/-- `k.startswith(key + sep)` on the characters of two flat keys; `sep` is the string literal of the source -/
+def isChildKey (sep key k : String) : Bool := (key.toList ++ sep.toList).isPrefixOf k.toList
+
+/-- the walk over `keys = list(prev_cfg.keys(branches=True))`: a key that holds a class spec on BOTH sides (`both`) is
+    handled — the module-level discard for that option, then, recursively, its init_args — and the keys below it are
+    taken off the work list (`keys = keys[:num+1] + [k for k in keys[num+1:] if not k.startswith(key + sep)]`); every
+    other key is skipped.  The result lists the handled keys in order.  The bound is the length of the work list. -/
+def discardWalk (sep : String) (both : String → Bool) : Nat → List String → List String
+  | 0, _ => []
+  | _ + 1, [] => []
+  | n + 1, key :: rest =>
+    if both key then key :: discardWalk sep both n (rest.filter (fun k => !isChildKey sep key k))
+    else discardWalk sep both n rest
+
+/-! ### dataclass-like types (inside Optional / List / Dict / Union): the Dataclass-like branch of `adapt_typehints` -/
+
+/-- the dict that is parsed as the FIELDS of the declared dataclass `decl` (= `get_import_path(typehint)`): a class spec
+    counts as its init_args only when its class_path IS `decl`; any other dict is taken as the fields themselves — so a spec
+    that names another class (whatever its simple name) fails on the keys `class_path` / `init_args`, which are no fields -/
+def dataFieldsOf (decl : String) : Val → Option KV
+  | .spec (some cp) ia _ => if cp == decl then some ia else none
+  | .bare kvs => some kvs
+  | _ => none
+
+/-- one assignment to a dataclass-typed value: the fields are validated by the dataclass's own parser and merged over
+    the previous field values; the stored value is the bare namespace of fields (no class_path) -/
+def adaptData (fields : List IParam) (decl : String) (prev : KV) (v : Val) : Except Err Val :=
+  match dataFieldsOf decl v with
+  | none => .error .unknownKey
+  | some kvs =>
+    match mergeArgs (fun _ _ _ => .error .notSpec) fields kvs prev with
+    | .error e => .error e
+    | .ok r => .ok (.bare r)
+
+/-- the Union branch for two member types: the first member that adapts the value without error wins -/
+def adaptUnion2 (f g : Val → Except Err Val) (v : Val) : Except Err Val :=
+  match f v with
+  | .ok r => .ok r
+  | .error _ => g v
+
 /-! ### short forms -/
 
 /-- the explicit dict `{class_path, init_args, dict_kwargs}` that a value stands for, given the class known so far -/
